@@ -44,7 +44,7 @@ Proof.
       * rewrite run_f_none. exact Hphi.
       * destruct (short_step j o fs) as [fs' r]. rewrite run_f_none. exact Hphi.
     + destruct (step o fs) as [fs' r]. apply IH; [exact Hrest|].
-      intros n' f' E. inversion E; subst. apply (Hb (S n) f' eq_refl).
+      intros n' f' E. inversion E; subst. eapply Hb; reflexivity.
     + destruct (step o fs) as [fs' r]. apply IH; [exact Hrest|]. intros n' f' E; discriminate.
 Qed.
 
@@ -59,9 +59,40 @@ Proof.
 Qed.
 
 (* programs under bind *)
-Lemma bind_write_chunks : forall A B p cs off (k : bool -> prog A) (f : A -> prog B),
-  bind (write_chunks p cs off k) f = write_chunks p cs off (fun ok => bind (k ok) f).
+Lemma all_points_bind : forall A B (Phi : files -> op -> (res -> prog B) -> Prop) (Psi : files -> B -> Prop)
+  (p : prog A) (f : A -> prog B) fs,
+  all_points (fun fs o k => Phi fs o (fun r => bind (k r) f)) (fun fs a => all_points Phi Psi (f a) fs) p fs ->
+  all_points Phi Psi (bind p f) fs.
 Proof.
-  intros A B p cs. induction cs as [|c r IH]; intros off k f; cbn; [reflexivity|].
-  f_equal. (* continuation equality needs extensionality: avoid it *)
-Abort.
+  induction p as [a|o k IH]; intros f fs Hall; cbn in *.
+  - exact Hall.
+  - destruct Hall as [Hp Hr]. split; [exact Hp|]. destruct (step o fs) as [fs' r]. apply IH. exact Hr.
+Qed.
+
+(* one faulty operation changes at most its own path *)
+Lemma short_step_agree : forall j o fs, agree_except (op_path o) fs (fst (short_step j o fs)).
+Proof.
+  intros j o fs. destruct o; cbn; try apply agree_refl.
+  destruct (Nat.ltb j (length b)).
+  - destruct (fs p); cbn; [apply agree_upd|apply agree_refl].
+  - apply (step_agree (OWrite p off b)).
+Qed.
+
+Lemma only_paths_run_f : forall A S (p : prog A), only_paths S p ->
+  forall b fs q, ~ S q -> fst (fst (run_f b p fs)) q = fs q.
+Proof.
+  intros A S p Hp. induction Hp as [a|o k Ho _ IH]; intros b fs q Nq; cbn [run_f].
+  - reflexivity.
+  - assert (q <> op_path o) as Nqo by (intros ->; contradiction).
+    pose proof (step_agree o fs q Nqo) as Hs.
+    destruct b as [[[|n] f]|].
+    + destruct f; cbn [fail_step fst].
+      * apply IH; exact Nq.
+      * pose proof (short_step_agree j o fs q Nqo) as Hss. destruct (short_step j o fs) as [fs' r].
+        rewrite IH by exact Nq. exact Hss.
+      * reflexivity.
+      * exact Hs.
+      * exact (short_step_agree j o fs q Nqo).
+    + destruct (step o fs) as [fs' r]. rewrite IH by exact Nq. exact Hs.
+    + destruct (step o fs) as [fs' r]. rewrite IH by exact Nq. exact Hs.
+Qed.
